@@ -236,7 +236,7 @@ class Writer:
         s = self.pos()
         self.put(name)
         self.uses.append(dict(file=self.cur, start=s, end=self.pos(), name=name, decl=d, tag=tag,
-                              visited=visited, ctx=self.ctx(), scopes=tuple(self.scopes), order=self.tick))
+                              visited=visited, ctx=self.ctx(), path="/".join(self.nest), scopes=tuple(self.scopes), order=self.tick))
         self.count("use:%s" % tag)
 
     def text(self):
@@ -324,6 +324,7 @@ class ListLit(Expr):
         self.elems, self.ty = elems, ty
 
     trailing_comma = False
+    annot = None
 
     def render(self, w):
         w.put("[")
@@ -332,11 +333,22 @@ class ListLit(Expr):
                 w.put(", ")
             elif starts_with_brace(e):
                 w.put(" ")       # `[{` would start a code block
+            s0 = w.pos()
             e.render(w)
+            if self.ty is not None and self.ty.k == "list" and len(self.elems) > 1:
+                # (for the fault seeder: one element of another type makes the literal ill-typed)
+                w.values.append(dict(file=w.cur, span=(s0, w.pos()), ty=self.ty.elem, ctx="list-element:%s" % ("first" if i == 0 else "rest")))
         if self.trailing_comma and self.elems:
             w.put(",")
             w.count("list:trailing-comma")
         w.put("]")
+        if self.annot is not None:
+            s1 = w.pos()
+            w.put("<")
+            render_type(w, self.annot, "empty-list-type")       # [a, b]<T>: the element type written out
+            w.put(">")
+            w.regions.append(dict(file=w.cur, start=s1, end=w.pos(), cause="typed-empty-list", mode="inside"))
+            w.count("list:typed-literal")
 
     def children(self):
         return self.elems
@@ -394,6 +406,20 @@ class DefmRecordUse(Expr):
         w.count("use:defm-record")
 
 
+class ForeachRecordUse(Expr):
+    """The name of a record created by `foreach i = 0...3 in def R#i : ...;` (`R0`): valid TableGen, no declaring identifier
+    in the text.  The indexer knows one def `R` only."""
+
+    def __init__(self, name, ty):
+        self.name, self.ty = name, ty
+
+    def render(self, w):
+        s = w.pos()
+        w.put(self.name)
+        w.known_false.append(dict(file=w.cur, start=s, end=w.pos(), kind="foreach_record_use"))
+        w.count("use:foreach-record")
+
+
 class Marked(Expr):
     """An expression whose discrepancies are reported under one construct name (a defect found with this construct).
     mode 'inside': discrepancies located inside the expression; 'contains': located at a range that contains it."""
@@ -427,6 +453,21 @@ class BitsCat(Expr):
 
     def children(self):
         return self.elems
+
+
+class TypedEmptyList(Expr):
+    """`[]<T>`: the empty list of element type T"""
+
+    def __init__(self, ty):
+        self.ty = ty
+
+    def render(self, w):
+        s = w.pos()
+        w.put("[]<")
+        render_type(w, self.ty.elem, "empty-list-type")
+        w.put(">")
+        w.regions.append(dict(file=w.cur, start=s, end=w.pos(), cause="typed-empty-list", mode="inside"))
+        w.count("list:typed-empty")
 
 
 class ListSlice(Expr):
@@ -953,8 +994,11 @@ class DefStmt(Stmt):
         # name_prefix: `def NAME#_y` inside a multiclass (the explicit spelling of the implicit prefix)
         self.decl, self.suffix, self.parents, self.items = decl, suffix, parents, items
         self.doc, self.oneline, self.name_prefix = doc, oneline, name_prefix
+        self.name_string = None      # `def "name"` / `def !strconcat("na", "me")`: the name is no identifier
 
     def body(self, w, inline):
+        if self.name_string is not None and self.decl is not None:
+            return self.body_string_named(w, inline)
         w.put("def")
         loc = nloc = None
         if self.decl is not None:
@@ -990,6 +1034,34 @@ class DefStmt(Stmt):
                 dst.append(onode("Def", self.decl.name, loc, "def", ch, lenient_name=True, optional=True))
             else:
                 dst.append(onode("Def", self.decl.name, loc, "def", ch, lenient_name=bool(self.suffix)))
+
+
+def _body_string_named(self, w, inline):
+    """def "name" : parents { body } - everything inside is an ordinary use; the def itself has no declaring identifier"""
+    s0 = w.pos()
+    w.put("def ")
+    s = w.pos()
+    w.put(self.name_string)
+    nloc = (w.cur, s, w.pos())
+    w.count("def:string-name")
+    w.push_scope()
+    w.nest.append("def")
+    render_parents(w, self.parents, "def-parent")
+    w.nest.pop()
+    ch = render_body(w, self.items, self.oneline, "def")
+    w.pop_scope()
+    nd = onode("Def", self.decl.name, nloc, "def", ch, lenient_name=True)
+    nd["within"] = True      # a named def: it must be listed; any range inside the name token is accepted
+    # a name that has to be COMPUTED (`!strconcat(..)`, `"a" # "b"`, an empty string) is not a name the outline can be asked for
+    import re as _re
+    if not _re.fullmatch(r'"[^"\\]+"', self.name_string.strip()):
+        nd["optional"] = True
+    nd["cause"] = "def-with-string-name"
+    (w.ostack[-1] if w.ostack else w.outline[w.cur]).append(nd)
+    w.regions.append(dict(file=w.cur, start=s0, end=w.pos(), cause="def-with-string-name", mode="inside"))
+
+
+DefStmt.body_string_named = _body_string_named
 
 
 class DefvarStmt(Stmt):
@@ -1172,10 +1244,23 @@ class DefmStmt(Stmt):
     def __init__(self, decl, suffix, refs, doc=None):
         self.decl, self.suffix, self.refs, self.doc = decl, suffix, refs, doc
 
+    empty_name = False
+
     def body(self, w, inline):
         if not self.refs or self.refs[0].target.kind != "multiclass":
             raise Invalid("a defm needs a multiclass first")
+        s0 = w.pos()
         w.put("defm")
+        if self.empty_name:
+            w.put(' ""')
+            w.count("defm:empty-string-name")
+            w.nest.append("defm")
+            render_parents(w, self.refs, "defm-ref")
+            w.nest.pop()
+            w.put(";")
+            w.stmt_ends.append(dict(file=w.cur, pos=w.pos() - 1, kind=";"))
+            w.regions.append(dict(file=w.cur, start=s0, end=w.pos(), cause="def-with-string-name", mode="inside"))
+            return
         if self.decl is not None:
             set_doc(self.decl, self.doc or NODOC, inline)
             w.put(" ")
@@ -1335,6 +1420,11 @@ AVOIDABLE = {
     "bits-concat": "a bits literal `{...}` with elements wider than one bit",
     "list-paste": "`#` between two lists",
     "def-typed-join": "!if / !listconcat over different defs of one class (or a def and a class value)",
+    "foreach-record-use": "the name of a record created by `foreach i = .. in def R#i` used as a value (R0)",
+    "typed-empty-list": "`[]<T>` as the (start of the) list a !foreach / !filter / !foldl runs over",
+    "string-named-def": "`def \"name\" : ...`, `def !strconcat(..) : ...`, `defm \"\" : M<..>;` (a name that is not an identifier)",
+    "scenario": "the LLVM-style target description block (registers, register classes, instruction formats, patterns)",
+    "list-element-fault": "(fault seeder) one element of a list literal replaced by a value of another type",
 }
 
 WORDS = ["alpha", "beta", "gamma", "delta", "epsilon", "zeta", "eta", "theta"]
@@ -1389,6 +1479,12 @@ class Gen:
         self.kf_fwd = self.r.random() < rate and bool(self.o.get("known_false"))
         self.kf_defm = self.r.random() < rate and bool(self.o.get("known_false"))
         self.kf_defm_tried = False
+        self.kf_foreach = self.r.random() < rate and bool(self.o.get("known_false")) and "foreach-record-use" not in self.avoid
+        self.foreach_records, self.foreach_records_pending = [], []
+        self.empty_defm = set()
+        self.empty_names = set()
+        self.want_scenario = "scenario" not in self.avoid and self.r.random() < self.o.get("scenario_rate", 0.15)
+        self.scenario_done = False
         self.pending_fwd = None     # a class declared `class X;` and not yet defined
         self.fwd_done = False
         self.in_cond = False
@@ -1511,8 +1607,14 @@ class Gen:
         if k == "list":
             if not exact and self.depth <= 1 and self.posctx[-1] in ("field-init", "let-value", "targ-default") and self.p(0.15):
                 return Lit("[]", ty)
+            if self.p(0.06) and not self.strict and self.typed_top() and "typed-empty-list" not in self.avoid \
+                    and not (ty.elem.k == "class" and ty.elem.cls.info.get("forward")):
+                return TypedEmptyList(ty)
             l = ListLit(self.list_elems(ty.elem, exact, r.randint(1, 3), True), ty)
             l.trailing_comma = self.p(0.05)
+            if self.p(0.05) and self.typed_top() and "typed-empty-list" not in self.avoid and not self.strict \
+                    and not (ty.elem.k == "class" and ty.elem.cls.info.get("forward")) and ty.elem.k != "list":
+                l.annot = ty.elem
             return l
         if k == "dag":
             return self.dag()
@@ -1584,6 +1686,8 @@ class Gen:
                 e = IdUse(d, None, self.tag(d))                  # a record as argument: (ins R:$a)
             elif c < 0.3 and depth == 0:
                 e = self.dag(1)                                  # nested dag
+            elif c < 0.36 and self.usable_classes() and not self.strict:
+                e = self.record_value(CLASS(r.choice(self.usable_classes())), False)      # (op C<1, 2>:$x)
             elif c < 0.38:
                 e, name = Lit("?", DAG), name or "u"             # ?:$u
             elif c < 0.45:
@@ -1615,6 +1719,11 @@ class Gen:
             if recs and self.p(0.5):
                 self.meta["defm_record_use"] = self.meta.get("defm_record_use", 0) + 1
                 return DefmRecordUse(self.r.choice(recs), ty)
+        if self.kf_foreach and not exact and not self.strict and not self.in_if and not self.loops:
+            recs = [n for n, ps in self.foreach_records if any(is_subclass(q, cls) for q in ps) and n not in self.sc.visible()]
+            if recs and self.p(0.5):
+                self.meta["foreach_record_use"] = self.meta.get("foreach_record_use", 0) + 1
+                return ForeachRecordUse(self.r.choice(recs), ty)
         if not cands:
             return Lit("?", ty)
         c = self.r.choice(cands)
@@ -1724,6 +1833,13 @@ class Gen:
     def bit_range(self, ty, allow_unset=False):
         """`v{hi-lo}` of a visible bits<n> value, n > k, as a value of bits<k> (k == 1: one bit)."""
         k = 1 if ty.k == "bit" else ty.n
+        if not self.no_fields and self.depth < 3 and self.p(0.25):
+            # x.f{hi-lo}: bits of a field of another record
+            for n_ in self.r.sample([4, 8, 16, 3, 2], 5):
+                if n_ > k:
+                    fa = self.field_access(BITS(n_))
+                    if fa is not None:
+                        return BitRange(fa, range_text(self.r, n_, k), ty)
         c = self.readable(lambda t: t.k == "bits" and t.n > k, allow_unset)
         if not c:
             return None
@@ -2043,6 +2159,9 @@ class Gen:
                     if rf is not None:
                         src = LIST(CLASS(rf[0]))
                     lst = self.expr(src, True)
+                    tel = False
+                    if rf is not None:
+                        lst, tel = self.maybe_empty_prefixed(lst)
                     v = self.bangvar_of(lst, src.elem)
                     fr = self.sc.push(Frame("bang"))
                     fr.vars[v.name] = v
@@ -2052,7 +2171,8 @@ class Gen:
                         body = self.expr(el, True)
                     self.sc.pop()
                     self.dead.append((v, "bangvar"))
-                    return Bang("foreach", [None, lst, body], ty, vars={0: v})
+                    b = Bang("foreach", [None, lst, body], ty, vars={0: v})
+                    return Marked(b, "typed-empty-list") if tel else b
                 if c == "filter":
                     lst = self.expr(ty, True)
                     v = self.bangvar_of(lst, el)
@@ -2078,6 +2198,12 @@ class Gen:
             return self.literal(ty, exact)
         finally:
             self.posctx.pop()
+
+    def maybe_empty_prefixed(self, lst):
+        """!listconcat([]<C>, lst) - the idiom of building lists from a typed empty start (IntrinsicsAMDGPU.td)"""
+        if "typed-empty-list" in self.avoid or not self.typed_top(True) or not self.p(0.5):
+            return lst, False      # (only where the operator is the whole value of a typed position: a wrong type stays local)
+        return Bang("listconcat", [TypedEmptyList(lst.ty), lst], lst.ty), True
 
     def record_field_of(self, ty):
         """(class, field, overridden marker): a usable class with a readable field of type ty."""
@@ -2118,6 +2244,9 @@ class Gen:
         if rf is not None:
             src = LIST(CLASS(rf[0]))
         lst = self.expr(src, True)
+        tel = False
+        if rf is not None:
+            lst, tel = self.maybe_empty_prefixed(lst)
         # (llvm-tblgen 14 substitutes a foreach iterator into !foldl's own variables: not borrowed)
         acc = self.bangvar(ty, kinds=("defvar",))
         fr = self.sc.push(Frame("bang"))
@@ -2134,7 +2263,8 @@ class Gen:
         self.sc.pop()
         self.dead.append((acc, "bangvar"))
         self.dead.append((v, "bangvar"))
-        return Bang("foldl", [init, lst, None, None, body], ty, vars={2: acc, 3: v})
+        b = Bang("foldl", [init, lst, None, None, body], ty, vars={2: acc, 3: v})
+        return Marked(b, "typed-empty-list") if tel else b
 
     # -- names with sanctioned shadowing ------------------------------------------------------
     def global_value_names(self, kinds):
@@ -2439,10 +2569,14 @@ class Gen:
             if not any(isinstance(it, FieldLet) and it.field is fld for it in (st.items or [])):
                 self.posctx.append("let-value")
                 self.literals_only = True      # (the value is written into the body of st: no names of this scope)
-                e = self.expr(fld.ty)
+                for _try in range(6):
+                    e = self.expr(fld.ty)
+                    if not has_unset(e):
+                        break
                 self.literals_only = False
                 self.posctx.pop()
-                st.items = (st.items or []) + [FieldLet(fld, e, self.doc())]
+                if not has_unset(e):
+                    st.items = (st.items or []) + [FieldLet(fld, e, self.doc())]
             out.append(st)
             break
         self.let_constraint = saved
@@ -2541,6 +2675,13 @@ class Gen:
         if decl is not None and not sfx and self.in_multiclass and parents:
             # the records a defm creates are called <defm name><this name>: the bare name never exists
             self.dead.append((Decl("def", decl.name, CLASS(parents[0])), "def@multiclass"))
+        if decl is not None and sfx and self.in_multiclass is None and not self.unusable and not self.in_if and parents \
+                and all(it.info.get("values") for it in self.loops) and len(self.loops) <= 2:
+            # the records `p3_1`, `p3_2` a foreach creates
+            names = [decl.name]
+            for it in self.loops:
+                names = [a + v for a in names for v in it.info["values"]]
+            self.foreach_records_pending.append(([(nm, list(parents)) for nm in names], len(self.loops)))
         if decl is not None and not sfx and not self.in_multiclass and not self.unusable and not self.loops:
             decl.info["usable"] = True
             decl.info["concrete"] = True
@@ -2548,7 +2689,16 @@ class Gen:
         name_prefix = decl is not None and not sfx and self.in_multiclass is not None and self.p(0.12)
         if name_prefix:
             decl.info["unchecked"] = True     # (the indexer takes `NAME` as the name of this def)
-        return DefStmt(decl, sfx, refs, items, self.doc(), oneline=self.p(0.3), name_prefix=name_prefix)
+        st = DefStmt(decl, sfx, refs, items, self.doc(), oneline=self.p(0.3), name_prefix=name_prefix)
+        if decl is not None and not sfx and not name_prefix and self.in_multiclass is None and not self.loops and \
+                "string-named-def" not in self.avoid and self.p(0.03):
+            # `def "d7" : ...`: a record like any other for TableGen; it is never referred to by name here
+            decl.info["unchecked"] = True
+            decl.info["usable"] = False
+            self.sc.frames[0].vars.pop(decl.name, None)
+            n = decl.name
+            st.name_string = '"%s"' % n if self.p(0.6) else '!strconcat("%s", "%s")' % (n[:1], n[1:])
+        return st
 
     # -- simple statements -------------------------------------------------------------------------
     def gen_defvar_records(self):
@@ -2643,12 +2793,21 @@ class Gen:
         self.strict = saved
         it = Decl("foreach", self.iter_name(), ty)
         it.info["concrete"] = True
+        if isinstance(init, ListLit) and all(isinstance(x, Lit) for x in init.elems):
+            it.info["values"] = [x.t.strip('"') for x in init.elems]
+        elif isinstance(init, tuple):
+            m = [int(x) for x in __import__("re").findall(r"\d+", init[1])]
+            it.info["values"] = [str(v) for v in range(m[0], m[1] + 1)]
         if isinstance(init, IdUse):
             it.info["nonunique"] = True      # the list may hold duplicates: no pasted names inside
         self.loops.append(it)
         braces = self.p(0.6)
         stmts = self.block("foreach", extra_var=it, n=None if braces else 1)
         self.loops.pop()
+        if not self.loops:
+            for recs, _ in self.foreach_records_pending:
+                self.foreach_records += recs
+            self.foreach_records_pending = []
         return ForeachStmt(it, init, stmts, braces, self.doc())
 
     def gen_if(self):
@@ -2789,6 +2948,15 @@ class Gen:
             decl.info["pasted"] = bool(sfx)
         elif sfx:
             sfx = []
+        empty = False
+        if decl is None and not self.loops and not self.in_if and self.in_multiclass is None and not self.unusable and \
+                "string-named-def" not in self.avoid and all(id(rf.target) not in self.empty_defm for rf in refs) and \
+                all(e["name"] and e["direct"] for e in prod) and not ({e["name"] for e in prod} & self.empty_names) and self.p(0.25):
+            # `defm "" : M<..>;` creates the records of M without a prefix (every record name once)
+            empty = True
+            self.empty_names |= {e["name"] for e in prod}
+            for rf in refs:
+                self.empty_defm.add(id(rf.target))
         direct = not self.loops and not self.in_if and decl is not None and not sfx
         for e in prod:
             e["name"] = decl.name + e["name"] if (direct and e["name"]) else None
@@ -2797,7 +2965,9 @@ class Gen:
             self.mc_prod.extend(prod)
         elif direct and not self.unusable:
             self.defm_records += [(e["name"], e["parents"]) for e in prod if e["name"] and e["direct"] and e["parents"]]
-        return DefmStmt(decl, sfx, refs, self.doc())
+        st = DefmStmt(decl, sfx, refs, self.doc())
+        st.empty_name = empty
+        return st
 
     def gen_assert(self, strict=True):
         """An assertion that always holds: !eq(X, X) over one identifier or literal."""
@@ -2934,6 +3104,10 @@ class Gen:
             if not self.classes and r.random() < 0.8:
                 want = "class"
             where = "top" if not nested else self.nested_where
+            if self.want_scenario and not self.scenario_done and not nested and depth == 0 and self.p(0.35):
+                self.scenario_done = True
+                stmts.extend(scenario_target(self))
+                continue
             if self.kf_fwd and not self.fwd_done and not nested and self.classes and self.p(0.4):
                 stmts.extend(self.gen_forward_group())
                 continue
@@ -3011,7 +3185,7 @@ def rerender(tree, root, seed=None, opts=None):
         d = u["decl"]
         if d is not None and getattr(d, "rid", None) is not w.rid:
             raise Invalid("use of %s without declaration" % u["name"])
-        p.uses.append(dict(file=u["file"], start=u["start"], end=u["end"], name=u["name"],
+        p.uses.append(dict(file=u["file"], start=u["start"], end=u["end"], name=u["name"], path=u.get("path", ""),
                            target=(tuple(d.loc) if d is not None else None), decl=d, tag=u["tag"],
                            visited=u["visited"], ctx=u["ctx"]))
     # a deliberately out-of-scope name must really be out of scope (shrinking may hoist declarations)
@@ -3055,6 +3229,9 @@ def rerender(tree, root, seed=None, opts=None):
     # regions whose discrepancies have one named cause (so that its many consequences share a construct name)
     p.regions = [dict(file=c["file"], start=c["span"][0], end=c["span"][1], cause="defm-class-in-multiclass", mode="inside")
                  for c in w.classrefs if c["ctx"] == "defm-class" and "multiclass" in c["path"].split("/")] + list(w.regions)
+    # (the causes repaired in /repo keep their `Marked` wrappers in the tree, but no longer rename anything)
+    p.regions = [r_ for r_ in p.regions if r_["cause"] in ("def-with-string-name", "typed-empty-list")]
+    p.regions.sort(key=lambda r_: 0 if r_["cause"] == "def-with-string-name" else 1)      # the enclosing cause first
     p.known_false_sites = list(w.known_false)
     p.known_false = sorted({k["kind"] for k in w.known_false})
     p.n_oos = sum(1 for u in p.uses if u["decl"] is None)
@@ -3107,7 +3284,7 @@ FAULT_CLASSES = ("undefined-class", "undefined-multiclass", "undefined-identifie
                  "type-incompatible-argument", "wrong-operator-arity", "syntax-error-root", "syntax-error-include")
 
 CLASS_POS_TAGS = ("class-parent", "def-parent", "classvalue-name", "targ-type", "field-type", "defset-type", "bang-type",
-                  "defm-class-ref")
+                  "defm-class-ref", "empty-list-type")
 
 
 def wrong_literal(ty):
@@ -3186,6 +3363,11 @@ def fault_sites(p):
             if "@" in sub:
                 sub = "value:" + sub.split("@", 1)[1].split(":")[0]
             add("undefined-identifier", sub, u["file"], s, e, new, (s, s + len(new)))
+            parts = u.get("path", "").split("/")
+            if sub.startswith("value:") and parts and parts[-1] == "def" and not ({"class", "multiclass", "defm"} & set(parts)) \
+                    and u["tag"].split("@")[-1].split(":")[0] in ("field-init", "let-value", "bang-arg", "list-elem"):
+                # NAME only exists inside classes and multiclasses: in a def written at top level it is an undefined identifier
+                add("undefined-identifier", "NAME-in-top-level-def", u["file"], s, e, "NAME", (s, s + 4))
     for inc in w.includes:
         s, e = inc["str_span"]
         new = "missing_file.td"
@@ -3246,14 +3428,21 @@ def fault_sites(p):
                     add("type-incompatible-argument", kind, c["file"], vs, ve, nm, (vs, vs + len(nm)),
                         variant="%s:class<-unrelated-def" % kind)
     for v in w.values:
-        if v["ty"].k == "class" and v["ctx"] != "let-in-value":
+        if v["ty"].k == "class" and v["ctx"] != "let-in-value" and not v["ctx"].startswith("list-element"):
             nm = unrelated_def(v["ty"], v["file"], v["span"][0])
             if nm:
                 s, e = v["span"]
                 add("type-incompatible-initialiser", v["ctx"], v["file"], s, e, nm, (s, s + len(nm)),
                     variant="%s:class<-unrelated-def" % v["ctx"])
+    avoid = set((p.opts or {}).get("avoid") or ())
     for v in w.values:
         s, e = v["span"]
+        if v["ctx"].startswith("list-element"):
+            if "list-element-fault" in avoid or v["ty"].k == "class":
+                continue
+            new = wrong_literal(v["ty"])
+            add("type-incompatible-initialiser", "list-element", v["file"], s, e, new, (s, s + len(new)), variant=v["ctx"])
+            continue
         new = wrong_literal(v["ty"])
         add("type-incompatible-initialiser", v["ctx"], v["file"], s, e, new, (s, s + len(new)),
             variant="%s:%s" % (v["ctx"], v["ty"].k))
@@ -3335,3 +3524,388 @@ if __name__ == "__main__":
     print("=== uses")
     for u in prog.uses:
         print(u["file"], u["start"], u["end"], u["name"], "->", u["target"], u["tag"])
+
+
+# --------------------------------------------------------------------------------------------
+# an LLVM-style target description (imitating llvm/Target/Target.td and a small backend): registers, register classes,
+# value types, instruction formats in several class levels, `let` blocks around groups of defs, multiclass hierarchies
+# with nested defm and NAME pasting, patterns with dag operators, !cast by constructed name.
+# Every identifier is rendered through the same use / declaration machinery as the random part, so the C05 / C18 /
+# C19 expectations follow mechanically.  Accepted by llvm-tblgen 14 in all its variants (audit.py).
+# --------------------------------------------------------------------------------------------
+
+
+def scenario_target(g):
+    r = g.r
+    out = []
+    G = g.sc.frames[0].vars
+
+    def doc():
+        return g.doc(allow_trail=False)
+
+    def cls(name, targs=(), parents=(), simple=False):
+        d = Decl("class", name)
+        d.info = dict(parents=[q for q, _ in parents], targs=[], fields=[], overridden=[])
+        tas = []
+        for ty, n, default in targs:
+            t = Decl("targ", n, ty)
+            t.info.update(concrete=True, of_record=True)
+            if default is not None:
+                t.info["default"] = True
+            d.info["targs"].append(t)
+            tas.append(TArg(t, default(d) if callable(default) else default, None))
+        return d, tas
+
+    def ta(c, name):
+        return next(t for t in c.info["targs"] if t.name == name)
+
+    def fld(c, name):
+        return next(f for f in class_fields(c) if f.name == name)
+
+    def field(owner, ty, name, expr=None):
+        f = Decl("field", name, ty, owner=owner)
+        f.info["of_record"] = True
+        if expr is None:
+            f.info["unset"] = True
+        owner.info["fields"].insert(0, f)
+        return FieldDef(f, expr, doc())
+
+    def let(owner, f, expr, rng=None, vty=None):
+        owner.info["overridden"].append(f)
+        return FieldLet(f, expr, doc(), rng, vty)
+
+    def use(d, pos):
+        return IdUse(d, d.ty, "%s@%s" % (d.kind, pos))
+
+    def ref(target, exprs, tag, names=()):
+        params = target.info["targs"]
+        args = []
+        for i, e in enumerate(exprs):
+            args.append((params[i].name if i in names else None, e, params[i]))
+        return ClassRef(target, args, bool(args), tag)
+
+    def s(text):
+        return Lit('"%s"' % text, STRING)
+
+    def n(v, ty=INT):
+        return Lit(str(v), ty)
+
+    def defrec(name, parent_refs, parents, items=None, oneline=False):
+        d = Decl("def", name)
+        d.info = dict(parents=list(parents), fields=[], overridden=[], usable=True, concrete=True, pasted=False)
+        G[name] = d
+        return d, DefStmt(d, [], parent_refs, items, doc(), oneline=oneline)
+
+    def dag(op, args, pos="dag-arg"):
+        return DagLit(IdUse(op, None, "%s@dag-operator" % op.kind), args)
+
+    # ---- value types -------------------------------------------------------------------------
+    VT, tas = cls("ValueType", [(INT, "size", None), (INT, "value", None)])
+    items = [field(VT, STRING, "Namespace", s("MVT")), field(VT, INT, "Size", use(ta(VT, "size"), "field-init")),
+             field(VT, INT, "Value", use(ta(VT, "value"), "field-init"))]
+    out.append(ClassStmt(VT, tas, [], items, doc()))
+    g.classes.append(VT)
+    vts = []
+    for i, (nm, sz) in enumerate(r.sample([("i8", 8), ("i16", 16), ("i32", 32), ("i64", 64), ("f32", 32)], r.randint(2, 3))):
+        d, st = defrec(nm, [ref(VT, [n(sz), n(i + 1)], "def-parent")], [VT])
+        vts.append(d)
+        out.append(st)
+    # ---- registers ----------------------------------------------------------------------------
+    REG = Decl("class", "Register")
+    REG.info = dict(parents=[], targs=[], fields=[], overridden=[])
+    t_n = Decl("targ", "n", STRING)
+    t_sub = Decl("targ", "subregs", LIST(CLASS(REG)))
+    t_sub.info["default"] = True
+    for t in (t_n, t_sub):
+        t.info.update(concrete=True, of_record=True)
+    REG.info["targs"] = [t_n, t_sub]
+    items = [field(REG, STRING, "Namespace", s("")), field(REG, STRING, "AsmName", use(t_n, "field-init")),
+             field(REG, LIST(CLASS(REG)), "SubRegs", use(t_sub, "field-init")), field(REG, INT, "CostPerUse", n(0)),
+             field(REG, BITS(16), "HWEncoding", n(0, BITS(16))), field(REG, BIT, "isArtificial", Lit("false", BIT))]
+    out.append(ClassStmt(REG, [TArg(t_n), TArg(t_sub, Lit("[]", LIST(CLASS(REG))))], [], items, doc(), multiline=g.p(0.3)))
+    MR, tas = cls("MyReg", [(BITS(4), "num", None), (STRING, "n", None), (LIST(CLASS(REG)), "subregs", Lit("[]", LIST(CLASS(REG))))],
+                  [(REG, None)])
+    prefs = [ref(REG, [use(ta(MR, "n"), "parent-arg"), use(ta(MR, "subregs"), "parent-arg")], "class-parent")]
+    hw = fld(MR, "HWEncoding")
+    items = [let(MR, hw, use(ta(MR, "num"), "let-value"), r.choice(["3-0", "3...0"]), BITS(4)), let(MR, fld(MR, "Namespace"), s("My"))]
+    out.append(ClassStmt(MR, tas, prefs, items, doc()))
+    nreg = r.randint(2, 4)
+    via_foreach = g.p(0.3) and "foreach-record-use" not in g.avoid
+    regs = []          # callables producing a use of register i
+    if via_foreach:
+        it = Decl("foreach", "i", INT)
+        it.info["concrete"] = True
+        dR = Decl("def", "R")
+        dR.info = dict(parents=[MR], fields=[], overridden=[], usable=False, pasted=True)
+        body = DefStmt(dR, [IdUse(it, INT, "foreach@def-name")],
+                       [ref(MR, [use(it, "parent-arg"), Paste([s("r"), use(it, "paste")])], "def-parent")], None, Doc())
+        out.append(ForeachStmt(it, ("range", "0...%d" % (nreg - 1)), [body], False, doc()))
+        g.dead.append((it, "foreach@foreach-block"))
+        for i in range(nreg):
+            regs.append(lambda pos, i=i: ForeachRecordUse("R%d" % i, CLASS(MR)))
+        g.meta["foreach_record_use"] = 1
+    else:
+        for i in range(nreg):
+            d, st = defrec("R%d" % i, [ref(MR, [n(i, BITS(4)), s("r%d" % i)], "def-parent")], [MR], oneline=True)
+            out.append(st)
+            regs.append(lambda pos, d=d: use(d, pos))
+    # a register with sub-registers
+    d0, st = defrec("D0", [ref(MR, [n(8, BITS(4)), s("d0"), ListLit([regs[0]("list-elem"), regs[1]("list-elem")], LIST(CLASS(REG)))], "def-parent")], [MR])
+    out.append(st)
+    # ---- set operators, SDNodes -------------------------------------------------------------------
+    plain = {}
+    for nm in ("ins", "outs", "set", "sequence", "node", "imm"):
+        plain[nm], st = defrec(nm, [], [], None)
+        out.append(st)
+    SDN, tas = cls("SDNode", [(STRING, "opcode", None), (INT, "numops", n(2))])
+    out.append(ClassStmt(SDN, tas, [], [field(SDN, STRING, "Opcode", use(ta(SDN, "opcode"), "field-init")),
+                                        field(SDN, INT, "NumOperands", use(ta(SDN, "numops"), "field-init"))], doc(), oneline=True))
+    g.classes.append(SDN)
+    ops = {}
+    for nm, isd in (("add", "ADD"), ("sub", "SUB"), ("and", "AND"), ("shl", "SHL"), ("rotl", "ROTL")):
+        ops[nm], st = defrec(nm, [ref(SDN, [s("ISD::" + isd)], "def-parent")], [SDN], oneline=True)
+        out.append(st)
+    # ---- register classes --------------------------------------------------------------------------
+    RC, tas = cls("RegisterClass", [(STRING, "namespace", None), (LIST(CLASS(VT)), "regTypes", None), (INT, "alignment", None), (DAG, "regList", None)])
+    items = [field(RC, STRING, "Namespace", use(ta(RC, "namespace"), "field-init")),
+             field(RC, LIST(CLASS(VT)), "RegTypes", use(ta(RC, "regTypes"), "field-init")),
+             field(RC, INT, "Size", n(0)), field(RC, INT, "Alignment", use(ta(RC, "alignment"), "field-init")),
+             field(RC, DAG, "MemberList", use(ta(RC, "regList"), "field-init")), field(RC, BIT, "isAllocatable", Lit("true", BIT))]
+    out.append(ClassStmt(RC, tas, [], items, doc(), multiline=g.p(0.3)))
+    members = [(regs[i]("dag-arg"), None) for i in range(nreg)]
+    if g.p(0.5):
+        members.append((dag(plain["sequence"], [(s("R%u"), None), (n(0), None), (n(nreg - 1), None)]), None))
+    gpr, st = defrec("GPR", [ref(RC, [s("My"), ListLit([use(v, "list-elem") for v in vts[:r.randint(1, 2)]], LIST(CLASS(VT))), n(32),
+                                      dag(ops["add"], members)], "def-parent")], [RC])
+    out.append(st)
+    # ---- predicates ---------------------------------------------------------------------------------
+    PR, tas = cls("Predicate", [(STRING, "cond", None)])
+    out.append(ClassStmt(PR, tas, [], [field(PR, STRING, "CondString", use(ta(PR, "cond"), "field-init"))], doc(), oneline=True))
+    g.classes.append(PR)
+    preds = []
+    for nm in ("HasX", "HasY"):
+        d, st = defrec(nm, [ref(PR, [s("ST->%s()" % nm.lower())], "def-parent")], [PR], oneline=True)
+        preds.append(d)
+        out.append(st)
+    # ---- instruction formats: three levels --------------------------------------------------------------
+    INS, _ = cls("Instruction")
+    items = [field(INS, STRING, "Namespace", s("")), field(INS, DAG, "OutOperandList"), field(INS, DAG, "InOperandList"),
+             field(INS, STRING, "AsmString", s("")), field(INS, LIST(DAG), "Pattern"),
+             field(INS, LIST(CLASS(REG)), "Uses", Lit("[]", LIST(CLASS(REG)))), field(INS, LIST(CLASS(REG)), "Defs", Lit("[]", LIST(CLASS(REG)))),
+             field(INS, LIST(CLASS(PR)), "Predicates", Lit("[]", LIST(CLASS(PR)))), field(INS, INT, "Size", n(0)),
+             field(INS, BIT, "isCommutable", Lit("false", BIT)), field(INS, BIT, "hasSideEffects", Lit("?", BIT)),
+             field(INS, BITS(64), "TSFlags", n(0, BITS(64))), field(INS, CODE, "Predicate", Lit("[{ return true; }]", CODE))]
+    fld(INS, "hasSideEffects").info["unset"] = True
+    out.append(ClassStmt(INS, [], [], items, doc()))
+    FMT, tas = cls("Format", [(BITS(3), "val", None)])
+    out.append(ClassStmt(FMT, tas, [], [field(FMT, BITS(3), "Value", use(ta(FMT, "val"), "field-init"))], doc(), oneline=True))
+    frm = []
+    for i, nm in enumerate(("FrmR", "FrmI")):
+        d, st = defrec(nm, [ref(FMT, [n(i + 1, BITS(3))], "def-parent")], [FMT], oneline=True)
+        frm.append(d)
+        out.append(st)
+    MI, tas = cls("MyInst", [(DAG, "outs_", None), (DAG, "ins_", None), (STRING, "asm", None), (LIST(DAG), "pattern", None),
+                             (CLASS(FMT), "f", use(frm[0], "targ-default"))], [(INS, None)])
+    form = None
+    items = [field(MI, BITS(32), "Inst"),
+             let(MI, fld(MI, "Namespace"), s("My")), let(MI, fld(MI, "OutOperandList"), use(ta(MI, "outs_"), "let-value")),
+             let(MI, fld(MI, "InOperandList"), use(ta(MI, "ins_"), "let-value")), let(MI, fld(MI, "AsmString"), use(ta(MI, "asm"), "let-value")),
+             let(MI, fld(MI, "Pattern"), use(ta(MI, "pattern"), "let-value"))]
+    items.append(field(MI, CLASS(FMT), "Form", use(ta(MI, "f"), "field-init")))
+    form = fld(MI, "Form")
+    items.append(let(MI, fld(MI, "TSFlags"), FieldAccess(use(form, "field-access-base"), fld(FMT, "Value"), "field@field-access:field-base"),
+                     "2-0", BITS(3)))
+    items.append(let(MI, fld(MI, "Size"), n(4)))
+    out.append(ClassStmt(MI, tas, [ref(INS, [], "class-parent")], items, doc(), multiline=g.p(0.4)))
+    RI, tas = cls("RInst", [(BITS(4), "opc", None), (STRING, "mn", None), (CLASS(SDN), "opnode", None), (CLASS(RC), "rc", use(gpr, "targ-default"))],
+                  [(MI, None)])
+    rc = ta(RI, "rc")
+    rcu = lambda: use(rc, "dag-arg")
+    pat = ListLit([dag(plain["set"], [(rcu(), "rd"), (DagLit(IdUse(ta(RI, "opnode"), None, "targ@dag-operator"), [(rcu(), "rs1"), (rcu(), "rs2")]), None)])],
+                  LIST(DAG))
+    prefs = [ref(MI, [dag(plain["outs"], [(rcu(), "rd")]), dag(plain["ins"], [(rcu(), "rs1"), (rcu(), "rs2")]),
+                      Bang("strconcat", [use(ta(RI, "mn"), "bang-arg"), s(" $rd, $rs1, $rs2")], STRING), pat], "class-parent")]
+    items = []
+    for nm in ("rd", "rs1", "rs2"):
+        items.append(field(RI, BITS(4), nm))
+    inst = fld(RI, "Inst")
+    for rng, src in (("31-28", use(ta(RI, "opc"), "let-value")), ("27-24", use(fld(RI, "rd"), "let-value")), ("23-20", use(fld(RI, "rs1"), "let-value")),
+                     ("19-16", use(fld(RI, "rs2"), "let-value"))):
+        items.append(let(RI, inst, src, rng if g.p(0.7) else rng.replace("-", "..."), BITS(4)))
+    items.append(let(RI, inst, n(0, BITS(16)), "15-0", BITS(16)))
+    # field access through a template argument of class type, one and two levels deep
+    items.append(field(RI, INT, "RegAlign", FieldAccess(use(rc, "field-access-base"), fld(RC, "Alignment"), "field@field-access:targ-base")))
+    items.append(field(RI, INT, "VTSize", FieldAccess(Bang("head", [FieldAccess(use(rc, "field-access-base"), fld(RC, "RegTypes"), "field@field-access:targ-base")],
+                                                            CLASS(VT)), fld(VT, "Size"), "field@field-access:bang-base")))
+    items.append(field(RI, INT, "NumOps", FieldAccess(use(ta(RI, "opnode"), "field-access-base"), fld(SDN, "NumOperands"), "field@field-access:targ-base")))
+    out.append(ClassStmt(RI, tas, prefs, items, doc(), multiline=g.p(0.4)))
+    split_at = len(out)          # everything so far may live in an included file (the "target independent" part)
+    # ---- instructions in `let` blocks ------------------------------------------------------------------------
+    instrs = []
+
+    def rinst(name, opc, mn, op, body=None, extra=()):
+        args = [n(opc, BITS(4)) if g.p(0.5) else Lit("0b" + format(opc, "04b"), BITS(4)), s(mn), use(ops[op], "parent-arg")] + list(extra)
+        d, st = defrec(name, [ref(RI, args, "def-parent")], [RI], body)
+        instrs.append(d)
+        return st
+    group = [rinst("ADD", 1, "add", "add"), rinst("AND", 2, "and", "and")]
+    litems = [(fld(INS, "Predicates"), ListLit([use(preds[0], "list-elem")], LIST(CLASS(PR)))), (fld(INS, "isCommutable"), n(1, BIT))]
+    if g.p(0.5):
+        litems.reverse()
+    out.append(LetStmt(litems, group, True, doc()))
+    body = [let_def for let_def in ()]
+    sub_items = [FieldLet(fld(INS, "Defs"), ListLit([regs[0]("list-elem")], LIST(CLASS(REG))), doc()),
+                 FieldLet(fld(INS, "Uses"), ListLit([regs[1]("list-elem"), use(d0, "list-elem")], LIST(CLASS(REG))), doc())]
+    st = rinst("SUB", 3, "sub", "sub", sub_items)
+    instrs[-1].info["overridden"] = [fld(INS, "Defs"), fld(INS, "Uses")]
+    out.append(LetStmt([(fld(INS, "Predicates"), ListLit([use(q, "list-elem") for q in preds], LIST(CLASS(PR))))], [st], g.p(0.5), doc()))
+    # ---- multiclass hierarchy, nested defm, NAME pasting ---------------------------------------------------------------
+    M1 = Decl("multiclass", "ALUri")
+    m_t = [Decl("targ", "opc", BITS(4)), Decl("targ", "mn", STRING), Decl("targ", "opnode", CLASS(SDN))]
+    for t in m_t:
+        t.info.update(concrete=True, of_record=True)
+    M1.info = dict(targs=m_t, parents=[], prod=[])
+    rr = Decl("def", "rr")
+    rr.info = dict(parents=[RI], fields=[], overridden=[], usable=False, pasted=False)
+    st_rr = DefStmt(rr, [], [ref(RI, [use(m_t[0], "parent-arg"), use(m_t[1], "parent-arg"), use(m_t[2], "parent-arg")], "def-parent")], None, doc())
+    ri = Decl("def", "ri")
+    ri.info = dict(parents=[MI], fields=[], overridden=[], usable=False, pasted=False)
+    ri_items = [FieldLet(fld(MI, "Inst"), use(m_t[0], "let-value"), doc(), "31-28", BITS(4))]
+    f_imm = Decl("field", "isImm", BIT, owner=ri)
+    f_tw = Decl("field", "Twin", STRING, owner=ri)
+    f_tr = Decl("field", "TwinRec", CLASS(MI), owner=ri)
+    f_ts = Decl("field", "TwinSize", INT, owner=ri)
+    for f in (f_imm, f_tw, f_tr, f_ts):
+        f.info["of_record"] = True
+        ri.info["fields"].insert(0, f)
+    ri_items.append(FieldDef(f_imm, Bang("if", [Bang("eq", [use(m_t[1], "bang-arg"), s("shl")], BIT), n(1, BIT), n(0, BIT)], BIT), doc()))
+    ri_items.append(FieldDef(f_tw, Paste([Lit("NAME", STRING), s("rr")]), doc()))
+    cast = lambda: Bang("cast", [Paste([Lit("NAME", STRING), s("rr")])], CLASS(MI), annot=CLASS(MI))
+    ri_items.append(FieldDef(f_tr, cast(), doc()))
+    ri_items.append(FieldDef(f_ts, FieldAccess(cast(), fld(MI, "Size"), "field@field-access-overridden:cast-base"), doc()))
+    gdag = lambda nm: (use(gpr, "dag-arg"), nm)
+    st_ri = DefStmt(ri, [], [ref(MI, [dag(plain["outs"], [gdag("rd")]), dag(plain["ins"], [gdag("rs"), (use(vts[0], "dag-arg"), "imm")]),
+                                      Paste([use(m_t[1], "paste"), s("i $rd, $rs, $imm")]), Lit("[]", LIST(DAG)), use(frm[1], "parent-arg")], "def-parent")],
+                    ri_items, doc())
+    M1.info["prod"] = [dict(anc=set(ancestors(RI)), fields={f.name for f in class_fields(RI)}, name="rr", parents=[RI], direct=True),
+                       dict(anc=set(ancestors(MI)), fields={f.name for f in class_fields(MI)} | {"isImm", "Twin", "TwinRec", "TwinSize"}, name="ri", parents=[MI], direct=True)]
+    out.append(MulticlassStmt(M1, [TArg(t) for t in m_t], [], [st_rr, st_ri], doc()))
+    g.multiclasses.append(M1)
+    M2 = Decl("multiclass", "ALU2")
+    m2_t = [Decl("targ", "opc", BITS(4)), Decl("targ", "mn", STRING), Decl("targ", "opnode", CLASS(SDN))]
+    for t in m2_t:
+        t.info.update(concrete=True, of_record=True)
+    M2.info = dict(targs=m2_t, parents=[], prod=[])
+    dm32 = Decl("defm", "_32")
+    dm64 = Decl("defm", "_64")
+    inner = [DefmStmt(dm32, [], [ref(M1, [use(m2_t[0], "defm-arg"), Paste([use(m2_t[1], "paste"), s("32")]), use(m2_t[2], "defm-arg")], "defm-ref")], doc()),
+             DefmStmt(dm64, [], [ref(M1, [Bang("xor", [use(m2_t[0], "bang-arg"), n(1)], INT), Paste([use(m2_t[1], "paste"), s("64")]), use(m2_t[2], "defm-arg")],
+                                     "defm-ref")], doc())]
+    M2.info["prod"] = [dict(e, name=pre + e["name"]) for pre in ("_32", "_64") for e in M1.info["prod"]]
+    out.append(MulticlassStmt(M2, [TArg(t) for t in m2_t], [], inner, doc()))
+    g.multiclasses.append(M2)
+    SCH, tas = cls("Sched", [(INT, "lat", None), (INT, "thr", lambda d: use(ta(d, "lat"), "targ-default"))])
+    out.append(ClassStmt(SCH, tas, [], [field(SCH, INT, "Latency", use(ta(SCH, "lat"), "field-init")),
+                                        field(SCH, INT, "Throughput", use(ta(SCH, "thr"), "field-init"))], doc(), oneline=g.p(0.5)))
+    g.classes.append(SCH)
+    M3 = Decl("multiclass", "Variants")
+    m3_t = [Decl("targ", "mn", STRING), Decl("targ", "wide", BIT)]
+    for t in m3_t:
+        t.info.update(concrete=True, of_record=True)
+    M3.info = dict(targs=m3_t, parents=[], prod=[])
+    dn = Decl("def", "_narrow")
+    dw = Decl("def", "_wide")
+    for d_ in (dn, dw):
+        d_.info = dict(parents=[SCH], fields=[], overridden=[], usable=False, pasted=False)
+    cond = use(m3_t[1], "if-cond") if g.p(0.5) else Bang("eq", [use(m3_t[0], "bang-arg"), s("shl")], BIT)
+    out.append(MulticlassStmt(M3, [TArg(t) for t in m3_t], [], [
+        IfStmt(cond, [DefStmt(dw, [], [ref(SCH, [n(2), n(4)], "def-parent")], None, doc())],
+               [DefStmt(dn, [], [ref(SCH, [n(1)], "def-parent")], None, doc())], True, True, doc())], doc()))
+    M3.info["prod"] = [dict(anc=set(ancestors(SCH)), fields={"Latency", "Throughput"}, name=None, parents=[SCH], direct=False)]
+    g.multiclasses.append(M3)
+    out.append(DefmStmt(Decl("defm", "SHLV"), [], [ref(M3, [s("shl"), n(1, BIT)], "defm-ref")], doc()))
+    shl = Decl("defm", "SHL")
+    out.append(DefmStmt(shl, [], [ref(M2, [n(4, BITS(4)), s("shl"), use(ops["shl"], "defm-arg")], "defm-ref")], doc()))
+    rot = Decl("defm", "ROT")
+    rrefs = [ref(M1, [n(6, BITS(4)), s("rot"), use(ops["rotl"], "defm-arg")], "defm-ref")]
+    if g.p(0.6):
+        rrefs.append(ref(SCH, [n(r.randint(1, 5))], "defm-class-ref"))
+    out.append(DefmStmt(rot, [], rrefs, doc()))
+    g.defm_records += [("SHL" + e["name"], e["parents"]) for e in M2.info["prod"]] + [("ROT" + e["name"], e["parents"]) for e in M1.info["prod"]]
+    # ---- patterns ----------------------------------------------------------------------------------------------
+    PT, tas = cls("Pattern", [(DAG, "patternToMatch", None), (LIST(DAG), "resultInstrs", None)])
+    out.append(ClassStmt(PT, tas, [], [field(PT, DAG, "PatternToMatch", use(ta(PT, "patternToMatch"), "field-init")),
+                                       field(PT, LIST(DAG), "ResultInstrs", use(ta(PT, "resultInstrs"), "field-init")),
+                                       field(PT, LIST(CLASS(PR)), "Predicates", Lit("[]", LIST(CLASS(PR)))), field(PT, INT, "AddedComplexity", n(0))], doc()))
+    PA, tas = cls("Pat", [(DAG, "pattern", None), (DAG, "result", None)], [(PT, None)])
+    out.append(ClassStmt(PA, tas, [ref(PT, [use(ta(PA, "pattern"), "parent-arg"), ListLit([use(ta(PA, "result"), "list-elem")], LIST(DAG))], "class-parent")],
+                         None, doc()))
+
+    def anon(parent_ref, parents, items=None):
+        return DefStmt(None, [], [parent_ref], items, doc())
+    a, b = r.sample(["a", "b", "x", "y", "lhs", "rhs"], 2)
+    out.append(anon(ref(PA, [dag(ops["add"], [gdag(a), dag and (dag(ops["shl"], [gdag(b), (dag(vts[0], [(use(plain["imm"], "dag-arg"), "c")]), None)]), None)]),
+                             dag(instrs[0], [gdag(a), gdag(b)])], "def-parent"), [PA]))
+    out.append(anon(ref(PA, [dag(ops["sub"], [(use(plain["node"], "dag-arg"), a), (use(plain["node"], "dag-arg"), b)]),
+                             dag(instrs[2], [(use(plain["node"], "dag-arg"), a), (use(plain["node"], "dag-arg"), b)])], "def-parent"), [PA]))
+    if g.kf_defm and g.p(0.7):
+        nm, ps = r.choice(g.defm_records[-6:])
+        out.append(anon(ref(PA, [dag(ops["shl"], [gdag(a), gdag(b)]), DagLit(DefmRecordUse(nm, None), [gdag(a), gdag(b)])], "def-parent"), [PA]))
+        g.meta["defm_record_use"] = g.meta.get("defm_record_use", 0) + 1
+    # foreach over a list of records
+    I = Decl("foreach", "I", CLASS(RI))
+    I.info.update(concrete=True, nonunique=True, type_any=True)
+    fitems = [FieldLet(fld(PT, "AddedComplexity"), FieldAccess(use(I, "field-access-base"), fld(INS, "Size"), "field@field-access-overridden:foreach-base", visited=None), doc())]
+    fbody = DefStmt(None, [], [ref(PA, [dag(plain["node"], [(use(I, "dag-arg"), "x")]), DagLit(IdUse(I, None, "foreach@dag-operator"), [gdag("x"), gdag("x")])],
+                                   "def-parent")], fitems, doc())
+    out.append(ForeachStmt(I, ListLit([use(instrs[0], "list-elem"), use(instrs[1], "list-elem")], LIST(CLASS(RI))), [fbody], g.p(0.5), doc()))
+    g.dead.append((I, "foreach@foreach-block"))
+    # lookups by (constructed) name, field access two levels deep, assert, defvar chain, if
+    u = Decl("def", "Info")
+    u.info = dict(parents=[], fields=[], overridden=[], usable=True, concrete=True, pasted=False)
+    G["Info"] = u
+    uit = []
+
+    def ufield(ty, name, e):
+        f = Decl("field", name, ty, owner=u)
+        f.info["of_record"] = True
+        u.info["fields"].insert(0, f)
+        uit.append(FieldDef(f, e, doc()))
+    ufield(CLASS(INS), "First", Bang("cast", [s("ADD")], CLASS(INS), annot=CLASS(INS)))
+    ufield(INT, "SubSize", FieldAccess(Bang("cast", [Paste([s("SU"), s("B")])], CLASS(MI), annot=CLASS(MI)), fld(MI, "Size"), "field@field-access-overridden:cast-base"))
+    ufield(INT, "Align", FieldAccess(use(gpr, "field-access-base"), fld(RC, "Alignment"), "field@field-access:def-base"))
+    ufield(INT, "VT0", FieldAccess(Bang("head", [FieldAccess(use(gpr, "field-access-base"), fld(RC, "RegTypes"), "field@field-access:def-base")], CLASS(VT)),
+                                   fld(VT, "Size"), "field@field-access:bang-base"))
+    ufield(LIST(CLASS(REG)), "Subs", FieldAccess(use(d0, "field-access-base"), fld(REG, "SubRegs"), "field@field-access:def-base"))
+    ufield(LIST(LIST(INT)), "Table", ListLit([ListLit([n(1), n(2)], LIST(INT)), ListLit([n(3)], LIST(INT))], LIST(LIST(INT))))
+    out.append(DefStmt(u, [], [], uit, doc()))
+    out.append(AssertStmt(Bang("eq", [FieldAccess(use(gpr, "field-access-base"), fld(RC, "Alignment"), "field@field-access:def-base"), n(32)], BIT),
+                          Bang("strconcat", [s("alignment of "), FieldAccess(use(gpr, "field-access-base"), fld(RC, "Namespace"), "field@field-access:def-base")], STRING), doc()))
+    nr = Decl("defvar", "NumRegs", INT)
+    nr.info["concrete"] = True
+    G["NumRegs"] = nr
+    out.append(DefvarStmt(nr, n(nreg), doc()))
+    lr = Decl("defvar", "LastReg", INT)
+    lr.info["concrete"] = True
+    G["LastReg"] = lr
+    out.append(DefvarStmt(lr, Bang("sub", [use(nr, "bang-arg"), n(1)], INT), doc()))
+    hf = Decl("defvar", "HasFP", BIT)
+    hf.info["concrete"] = True
+    G["HasFP"] = hf
+    out.append(DefvarStmt(hf, Bang("gt", [use(lr, "bang-arg"), n(1)], BIT), doc()))
+    f0 = Decl("def", "F0")
+    f0.info = dict(parents=[MR], fields=[], overridden=[], usable=False, pasted=False)
+    nofp = Decl("def", "NoFP")
+    nofp.info = dict(parents=[], fields=[], overridden=[], usable=False, pasted=False)
+    out.append(IfStmt(use(hf, "if-cond"), [DefStmt(f0, [], [ref(MR, [n(9, BITS(4)), s("f0")], "def-parent")], None, doc())],
+                      [DefStmt(nofp, [], [], None, doc())], True, g.p(0.5), doc()))
+    g.meta["scenario"] = 1
+    if g.o["includes"] and g.cur_path and g.p(0.5):
+        path = g.cur_path[-1]
+        tgt = path.rsplit("/", 1)[0] + "/MyTargetBase.td"
+        if tgt not in g.tree:
+            g.tree[tgt] = out[:split_at]
+            inc = Include("MyTargetBase.td", tgt)
+            inc.doc = Doc()
+            out = [inc] + out[split_at:]
+    return out
